@@ -159,12 +159,16 @@ type issuer struct {
 func makeCertFull(key int, subject pkix.Name, rawSubject []byte, serial *big.Int, iss *issuer) (*x509.Certificate, error) {
 	now := time.Now().UTC().Truncate(time.Hour)
 	tpl := &x509.Certificate{
-		SerialNumber:       serial,
-		Subject:            subject,
-		RawSubject:         rawSubject,
-		NotBefore:          now.Add(-48 * time.Hour),
-		NotAfter:           now.Add(10 * 365 * 24 * time.Hour),
-		KeyUsage:           x509.KeyUsageDigitalSignature,
+		SerialNumber: serial,
+		Subject:      subject,
+		RawSubject:   rawSubject,
+		NotBefore:    now.Add(-48 * time.Hour),
+		NotAfter:     now.Add(10 * 365 * 24 * time.Hour),
+		// the keyUsage extension varies with the serial number too: digitalSignature, absent, a CA-style usage without
+		// digitalSignature, several bits (whether a certificate *may* sign is policy of the relying party; it does not
+		// change whose key made a signature)
+		KeyUsage: []x509.KeyUsage{x509.KeyUsageDigitalSignature, 0, x509.KeyUsageCertSign | x509.KeyUsageCRLSign,
+			x509.KeyUsageDigitalSignature | x509.KeyUsageContentCommitment}[serial.Bit(3)+2*serial.Bit(4)],
 		PublicKeyAlgorithm: x509.RSA,
 		// how the certificate itself is signed varies with the serial number (it must not matter to anything)
 		SignatureAlgorithm: []x509.SignatureAlgorithm{x509.SHA256WithRSA, x509.SHA256WithRSA, x509.SHA384WithRSA, x509.SHA512WithRSA,
@@ -305,7 +309,7 @@ func FixedIdents() []Identity {
 			if i%2 == 1 {
 				iss = &issuer{Key: (i + 3) % len(Keys()), Name: pkix.Name{CommonName: "verif fixed CA", Organization: []string{"verif", "issuing"}, Country: []string{"NO"}}}
 			}
-			c, err := makeCertFull(i, pkix.Name{CommonName: fmt.Sprintf("verif fixed identity %d", i), Organization: []string{"verif"}}, nil, big.NewInt(int64(0x1000+i)), iss)
+			c, err := makeCertFull(i, pkix.Name{CommonName: fmt.Sprintf("verif fixed identity %d", i), Organization: []string{"verif"}}, nil, big.NewInt(int64(0x1000+i+8*(i%4))), iss)
 			if err != nil {
 				panic(err)
 			}
